@@ -9,6 +9,7 @@ import (
 	"testing"
 	"time"
 
+	"github.com/goblimey/go-ntrip/vhsched"
 	"pgregory.net/rapid"
 	"vh/drive"
 	"vh/gen"
@@ -29,6 +30,10 @@ type Case struct {
 	ProdK    int        `json:"producer_k"`
 	ConsMode int        `json:"consumer_mode"`
 	ConsK    int        `json:"consumer_k"`
+	// only effective in the instrumented build (yield points around channel operations)
+	YieldSeed int `json:"yield_seed"`
+	YieldMode int `json:"yield_mode"`
+	YieldDens int `json:"yield_density"`
 }
 
 func pause(mode, k int) func(int) {
@@ -55,6 +60,12 @@ func check(c Case, o *stats.Obs) error {
 		old := runtime.GOMAXPROCS(c.Procs)
 		defer runtime.GOMAXPROCS(old)
 	}
+	dens := c.YieldDens
+	if dens < 1 {
+		dens = 1
+	}
+	vhsched.Configure(uint64(c.YieldSeed)+1, c.YieldMode, 30, uint64(dens))
+	defer vhsched.Configure(1, 0, 0, 1)
 	res := drive.Run(drive.NewHandler(slog.LevelInfo), input, drive.Options{
 		InCap: c.InCap, OutCap: c.OutCap, Timeout: 20 * time.Second,
 		ProducerPause: pause(c.ProdMode, c.ProdK), ConsumerPause: pause(c.ConsMode, c.ConsK),
@@ -162,6 +173,9 @@ func gen1(t *rapid.T) Case {
 	if rapid.IntRange(0, 3).Draw(t, "setProcs") == 0 {
 		c.Procs = rapid.SampledFrom([]int{1, 2, 16}).Draw(t, "procs")
 	}
+	c.YieldSeed = rapid.IntRange(0, 1<<30).Draw(t, "yieldSeed")
+	c.YieldMode = rapid.IntRange(0, 2).Draw(t, "yieldMode")
+	c.YieldDens = rapid.SampledFrom([]int{3, 16, 64}).Draw(t, "yieldDensity")
 	if rapid.IntRange(0, 2).Draw(t, "pace") == 0 {
 		c.ProdMode = rapid.IntRange(0, 2).Draw(t, "prodMode")
 		c.ProdK = rapid.IntRange(1, 50).Draw(t, "prodK")
